@@ -56,6 +56,8 @@ def norm(v):
     if isinstance(v, float):
         if math.isnan(v) or math.isinf(v):
             raise Undef('non-finite number')
+        if v == 0:
+            return 0  # the sign of a zero is not part of the meaning (atan2(0, -0.0) vs atan2(0, 0))
         if abs(v) > MAX_MAG:
             raise Undef('magnitude out of the evaluator domain')
     elif isinstance(v, int) and abs(v) > 10**40:
@@ -347,6 +349,8 @@ def call(name, args):
             raise Undef('log domain')
     if name == 'atan2':
         _need_nums(list(args))
+        if args[0] == 0 and args[1] == 0:
+            raise Ambig('atan2(0, 0)')
         return norm(math.atan2(float(args[0]), float(args[1])))
     if name in ('roll', 'pitch', 'yaw'):
         raise Ambig('quaternion functions are not interpreted')
